@@ -136,6 +136,23 @@ DEFS = [
 ]
 
 DEFS += [
+    # ---------------------------------------------------------------- more shapes of generated code (thorough tier unless noted)
+    # ten ranges to one non-accepting target: the binary-search table shape inside a step harness (also in a right context)
+    flat('c02_table_shape', [R(cat(cset(rng('a', 'b'), rng('d', 'e'), rng('g', 'h'), rng('j', 'k'), rng('m', 'n'), rng('p', 'q'), rng('s', 't'), rng('v', 'w'), rng('y', 'z'),
+                                        rng('0', '4'), rng('6', '9')), c('!'))), R(cset(rng('a', 'z')))], ['C02', 'C13'], N=2, m=1, Nt=3, unwind=12),
+    flat('c04_table_in_ctx', [R(c('x'), ctx=cat(cset(rng('a', 'b'), rng('d', 'e'), rng('g', 'h'), rng('j', 'k'), rng('m', 'n'), rng('p', 'q'), rng('s', 't'), rng('v', 'w'), rng('y', 'z'),
+                                                     rng('0', '4'), rng('6', '9')), c('!'))), R(c('x')), R(ANY)], ['C04'], N=3, m=1, unwind=12, tier='thorough', Nt=3),
+    # comment-like loop over a complemented class, shares its first character with an operator
+    flat('c01_comment_loop', [R(cat(s('/*'), star(diff(ANY, c('*'))), s('*/')), 'return'), R(c('/'), 'return'), R(c('*'), 'return'), R(ANY, 'return')], ['C01', 'C02'], N=4, m=1, tier='thorough', Nt=5),
+    # long literal sharing prefixes with shorter literals and an identifier class
+    flat('c01_literal_prefixes', [R(s('abc')), R(s('ab')), R(s('abd')), R(plus(cset(rng('a', 'd')))), R(c('e'))], ['C01'], N=3, m=1, tier='thorough', Nt=4),
+    # four rule sets, entry states behind inlined and dropped states, switch in both directions, failure in a deep set
+    multi('c03_four_sets', [
+        ('Init', [R(s('ab'), 'switch', to='B'), R(c('c'), 'switch_return', to='C'), R(c('x'), 'return')]),
+        ('B', [R(c('x'), 'return'), R(s('xy'), 'switch', to='C')]),
+        ('C', [R(c('x'), 'switch_return', to='D'), R(cat(c('y'), c('z')), 'return')]),
+        ('D', [R(c('x'), 'switch', to='Init'), R(EOF, 'return')]),
+    ], ['C03', 'C08'], N=2, m=2, tier='thorough', Nt=3),
     # ---------------------------------------------------------------- C09: termination / progress only (no reference): next() returns within the unwinding bound
     flat('c09_eof_under_repetition', [R(plus(alt(c('\n'), EOF)), 'return'), R(plus(cset(rng('a', 'z'))), 'return')], ['C09'], N=3, m=1, form='termination', unwind=10),
     flat('c09_string_or_skip', [R(cat(c('"'), star(diff(ANY, c('"'))), c('"')), 'return'), R(ANY, 'skip')], ['C09'], N=2, m=3, form='termination', unwind=12, Nt=3),
